@@ -463,10 +463,22 @@ func (crashEngine) Execute(p *Plan) *RunResult {
 		maxPoints = 60
 	}
 	isPL := p.Property == "C06" || p.Property == "C09"
+	var contLog []Fault // continuation point of every finished epoch, in order
 	for ei, ops := range p.Epochs {
 		last := ei == len(p.Epochs)-1
 		// C06 chains: earlier epochs may end in a mere process crash (the page cache survives)
 		powerLoss := isPL && (last || rng.Intn(2) == 0)
+		// replay: the continuation point of an earlier epoch is recorded in the plan, so that a replay
+		// does not depend on how the candidate list of that epoch is enumerated and sampled
+		var contPin *crashPoint
+		for _, f := range p.Faults {
+			if ep, ok := f.Extra["epoch"]; ok && int(ep.(float64)) == ei && f.Kind == "cont" {
+				contPin = &crashPoint{k: f.Point, cut: f.Cut}
+				if pl, ok := f.Extra["ploss"].(bool); ok {
+					powerLoss = pl
+				}
+			}
+		}
 		e := NewEnv(p.Cfg, keys, img, true)
 		e.NoRetain = true
 		rec, v := runSession(e, o, ops, p.Property)
@@ -536,7 +548,7 @@ func (crashEngine) Execute(p *Plan) *RunResult {
 		var chosen []crashPoint
 		pinned := false
 		for _, f := range p.Faults {
-			if ep, ok := f.Extra["epoch"]; ok && int(ep.(float64)) == ei {
+			if ep, ok := f.Extra["epoch"]; ok && int(ep.(float64)) == ei && f.Kind != "cont" {
 				pt := crashPoint{k: f.Point, cut: f.Cut}
 				pinned = true
 				if pt.k > len(j) || (pt.cut > 0 && (pt.k >= len(j) || j[pt.k].Kind != JWrite || pt.cut <= j[pt.k].Off || pt.cut >= j[pt.k].Off+int64(len(j[pt.k].Data)))) {
@@ -584,6 +596,17 @@ func (crashEngine) Execute(p *Plan) *RunResult {
 				cont = torn[rng.Intn(len(torn))]
 			}
 		}
+		if contPin != nil && !pinned {
+			pt := *contPin
+			if pt.k > len(j) || (pt.cut > 0 && (pt.k >= len(j) || j[pt.k].Kind != JWrite || pt.cut <= j[pt.k].Off || pt.cut >= j[pt.k].Off+int64(len(j[pt.k].Data)))) {
+				return res // the recorded continuation point does not exist in this (shrunken) plan
+			}
+			cont = pt
+			chosen = []crashPoint{pt}
+		}
+		if !last {
+			contLog = append(contLog, Fault{Kind: "cont", Point: cont.k, Cut: cont.cut, Extra: map[string]interface{}{"epoch": float64(ei), "ploss": powerLoss}})
+		}
 		// sweep
 		rp := NewReplayer(rec.initialOr(img))
 		applied := 0
@@ -622,8 +645,16 @@ func (crashEngine) Execute(p *Plan) *RunResult {
 				if v != nil {
 					v.Detail = fmt.Sprintf("epoch %d, crash at journal[%d/%d] (%s) cut=%d family=%s: %s", ei, pt.k, len(j), describePoint(j, rec, pt), pt.cut, famNames[ii], v.Detail)
 					res.V = v
-					p.Faults = append(p.Faults[:0:0], p.Faults...)
-					if !pinned {
+					if pinned {
+						p.Faults = append(p.Faults[:0:0], p.Faults...)
+					} else {
+						// earlier epochs: their continuation points; this epoch: the failing point
+						p.Faults = nil
+						for _, cf := range contLog {
+							if int(cf.Extra["epoch"].(float64)) < ei {
+								p.Faults = append(p.Faults, cf)
+							}
+						}
 						p.Faults = append(p.Faults, Fault{Kind: famNames[ii], Point: pt.k, Cut: pt.cut, Extra: map[string]interface{}{"epoch": float64(ei)}})
 					}
 					return res
